@@ -108,8 +108,12 @@ def _shard_main(args):
         for sub in subs:
             share = total_budget / nsel
             if hasattr(sub, "budget_s_quick"):
-                sub.budget_s_quick = min(sub.budget_s_quick, share)
-                sub.budget_s_thorough = min(sub.budget_s_thorough, share)
+                if "VERIF_BUDGET_S" in os.environ:
+                    # an explicit budget replaces the per-sub defaults (used to finish a full case count on a loaded machine)
+                    sub.budget_s_quick = sub.budget_s_thorough = share
+                else:
+                    sub.budget_s_quick = min(sub.budget_s_quick, share)
+                    sub.budget_s_thorough = min(sub.budget_s_thorough, share)
             if only_sub and sub.name != only_sub:
                 continue
             ctx._cur_sub = sub.name
